@@ -26,7 +26,8 @@ PROP = [('InverseMatcher returned','C01'),('RequireMatcher.skip_to_quality','C05
  ('range over a field without an analyzer','C16'),('open-ended date range with a fully specified','C16'),('quoted value on a field without an analyzer','C16'),
  ('impossible date raised TimeError','C16'),('NOT in front of another operator','C16'),('binary operator followed by another operator','C16'),
  ('NgramTokenizer produced query-time grams','C17'),('NgramFilter character offsets','C17'),('HashWriter(hashtype=2) raised','C20'),('varint_to_int() raised','C20'),
- ('fixed-width number encodings decoded','C20'),('GInts could not decode','C20'),('ordered hash writers rejected an empty','C20')]
+ ('fixed-width number encodings decoded','C20'),('GInts could not decode','C20'),('ordered hash writers rejected an empty','C20'),
+ ('span queries over an Or of three or more','C01'),('SpanNot crashed once','C01'),('unordered SpanNear2 missed long spans','C01'),('SpanCondition matcher could not be copied','C11')]
 log = subprocess.check_output(['git','-C','/repo','log','--reverse','--format=%h|%s','173ed2e..HEAD']).decode().strip().split('\n')
 p = '/verif/known_findings.json'
 d = json.load(open(p))
